@@ -11,7 +11,7 @@ CHECKS = {
    text="Proved on the real code: resolve_entity never raises and returns the entity or one character (all entity strings); State.get_next adds at most 1/2/2/6/6 successors linked to the predecessor (the fan-out bound behind the 32-state pruning); tokenize's non-empty precondition holds at its call site in parse_txt for any text and any result of comment stripping. Decided statically: none of the ~100 regular expressions the parser compiles (recorded from re._compile on every run) has exponential ambiguity (squared-NFA criterion; candidates are replayed on the real pattern object). Whole-pipeline totality is NOT proved: parse_string is exercised by the bounded stand-in only.",
    note="Trusted: library contracts of int/chr/str slicing, name2codepoint range; the regex analysis abstracts characters to representatives and unrolls counted repeats (see pyvc/regexamb.py). Not covered by proof: the refinement passes other than ParseLines (C02), tagext/imgmap handlers, the C++ scanner, polynomial time bounds."),
  "C02": dict(cat="proof", tech=T + B, ref="3/C02",
-   text="Proved: link classification (compat._handle_link_node) as a decision table over namespace/colon/langlink/interwiki; table/row child filtering; ParseLines.run overwrites exactly the token indices it collected into lines (loop invariant + ghost collected set, nothing dropped or duplicated by the grouping driver); ParseLines.analyze inserts every token it creates exactly once and in front of its guard. Section nesting, tables and apostrophes are covered by the bounded grammar round trip (every word once, in order, under the denoted ancestors), not by discharged contracts.",
+   text="Proved: link classification (compat._handle_link_node) as a decision table over namespace/colon/langlink/interwiki; table/row child filtering; ParseLines.run overwrites exactly the token indices it collected into lines (loop invariant + ghost collected set, nothing dropped or duplicated by the grouping driver); ParseLines.analyze inserts every token it creates exactly once and in front of its guard. Section nesting, tables and apostrophes are covered by the bounded grammar round trip (every word once, in order, under the denoted ancestors), link classification into every namespace of every bundled site by a bounded family, not by discharged contracts.",
    note="collect_items / append_line / splitdl are assumed contracts; precondition of run(): item/colon tokens stand at line starts; termination of the ParseLines loops not proved. The property as a whole still rests on the bounded stand-in."),
  "C03": dict(cat="proof", tech=T + "; static call-site/arity obligations from the real classes" + B, ref="3/C03",
    text="Proved: flatten restores the recursion counter on every exit, raises TemplateRecursion before running any callee when over the limit, swallows it only at the outermost call and then yields nothing; static: every callee MagicResolver.__call__ can dispatch to accepts the one positional argument; resource contracts of every #expr operator function (int ** int needs a bounded exponent, round a bounded digit count, only arithmetic errors escape); no magic / parser function evaluates a lazy argument inside a catch-all handler; #time's post-processor (roman numerals) cannot abort the expansion. Per-function size/CPU contracts of the remaining functions are bounded only (every registered name x 0..2/3 args x 11 shapes, every #time format code).",
@@ -35,8 +35,8 @@ CHECKS = {
    text="BOUNDED stand-in, not a proof: tiling contract on utoken.scan exhaustively over all sequences of <= 3 (quick) / 4 (thorough) lexemes, deep sequences over small blank / newline alphabets (line structure), plus random longer strings.",
    note="Nothing is proved."),
  "C11": dict(cat="proof", tech=T + "; static data-flow obligation", ref="3/C11",
-   text="Proved (unbounded, with loop invariants): split_blocks concatenates back to the list with blocks of 1..limit entries and terminates for limit >= 1; get_block removes exactly the returned block; enqueue_missing makes scheduled the union and enqueues each new item exactly once. Static + run-time contract: _lookup_contributors stores the authors of the titles it requested. get_contributors/merge_data/get_authors store exactly the reported non-bot names and the anonymous count for any chunking of the answer. handle_new_basepath loses no (title, url) registration across its greenlet switch. Closure and termination of the greenlet fan-out are NOT covered.",
-   note="Requires api_request_limit >= 1. No stand-in for the orchestration (would be a simulation: another family)."),
+   text="Proved (unbounded, with loop invariants): split_blocks concatenates back to the list with blocks of 1..limit entries and terminates for limit >= 1; get_block removes exactly the returned block; enqueue_missing makes scheduled the union and enqueues each new item exactly once. Static + run-time contract: _lookup_contributors stores the authors of the titles it requested. get_contributors/merge_data/get_authors store exactly the reported non-bot names and the anonymous count for any chunking of the answer. handle_new_basepath loses no (title, url) registration across its greenlet switch. Bounded: collect_page_data on page-entry shapes (missing pages), contributor lookups under every release order of concurrent API answers. Closure and termination of the greenlet fan-out are NOT covered.",
+   note="Requires api_request_limit >= 1. No stand-in for the orchestration as a whole (it needs a synthetic wiki behind the API: a simulation, another family)."),
  "C12": dict(cat="proof", tech="configuration and Unicode lemmas decided exactly on every run" + B, ref="3/C12",
    text="Decided exactly: the namespace tables of all 12 bundled sites are consistent (keys = ids, names canonical, lookups unambiguous) and first-letter capitalisation is idempotent for every code point - the premises of idempotence. Proved for all titles on every bundled site table: splitname never raises, reports a namespace of the site, full = local name + ':' + partial, default / main namespace without a prefix. The rest of the contract (canonical spelling, idempotence, spelling invariance) is checked exhaustively on enumerated titles only.",
    note="Domain precondition: titles that start with ':' after the optional leading colon, or are empty, are not page titles."),
@@ -62,7 +62,7 @@ CHECKS = {
    text="do_render_status verified as the exact function of the two job snapshots the statement describes, querying only its own job ids; job-id templates injective; download file name proved header-safe (printable ASCII, no whitespace, no delimiter).",
    note="Trusted: qinfo returns job._json() or None; NFKD/ASCII contract validated for every code point on every run."),
  "C20": dict(cat="proof", tech=T + " with a ghost file system, I/O-error injection at every call; static protocol obligations for render()" + B, ref="3/C20",
-   text="Status.dump, ZipCreator.create_zip and make_zip verified on every path incl. injected I/O errors: the published path is never opened for writing, only ever replaced by rename of a closed temp file from the same directory, temp unlinked on error. render(): static protocol obligations. download_with_retries: the destination only ever receives a complete file (retry loop invariant + variant, chunk loop); shutil.move modelled with its cross-file-system copy fallback.",
+   text="Status.dump, ZipCreator.create_zip and make_zip verified on every path incl. injected I/O errors: the published path is never opened for writing, only ever replaced by rename of a closed temp file from the same directory, temp unlinked on error. render(): static protocol obligations. download_with_retries: the destination only ever receives a complete file (retry loop invariant + variant, chunk loop); shutil.move modelled with its cross-file-system copy fallback; ZipCreator._write_zip's body: an I/O error while adding a member propagates. Bounded: concurrent image downloads share no destination / temp file.",
    note="Trusted: rename atomicity, writers write only their output path, mkstemp names differ from the published path."),
 }
 NA = {
